@@ -595,34 +595,6 @@ fn shape_batch(shape: usize, chunk_no: usize, base_ts: i64) -> arrow_array::Reco
     arrow_array::RecordBatch::try_new(Arc::new(Schema::new(fields)), cols).expect("shape batch")
 }
 
-/// every row of a Parquet object as "col=value" pairs of its non-null columns (timestamps as integer nanoseconds)
-fn whole_rows(data: bytes::Bytes) -> Result<Vec<String>, String> {
-    use arrow_array::cast::AsArray;
-    let reader = parquet::arrow::arrow_reader::ParquetRecordBatchReaderBuilder::try_new(data).map_err(|e| e.to_string())?.build().map_err(|e| e.to_string())?;
-    let mut out = Vec::new();
-    for b in reader {
-        let b = b.map_err(|e| e.to_string())?;
-        let schema = b.schema();
-        for r in 0..b.num_rows() {
-            let mut kv: Vec<String> = Vec::new();
-            for (c, f) in schema.fields().iter().enumerate() {
-                let a = b.column(c);
-                if a.is_null(r) {
-                    continue;
-                }
-                let v = match f.data_type() {
-                    arrow_schema::DataType::Timestamp(arrow_schema::TimeUnit::Nanosecond, _) => a.as_primitive::<arrow_array::types::TimestampNanosecondType>().value(r).to_string(),
-                    _ => arrow::util::display::array_value_to_string(a, r).map_err(|e| e.to_string())?,
-                };
-                kv.push(format!("{}={}", f.name(), v));
-            }
-            kv.sort();
-            out.push(kv.join(","));
-        }
-    }
-    Ok(out)
-}
-
 async fn whole_rows_of_catalog(mem: &Arc<dyn ObjectStore>, meta: &dyn MetadataClient) -> Result<Vec<String>, String> {
     let mut all = Vec::new();
     for c in meta.list_chunks().await.map_err(|e| e.to_string())? {
